@@ -68,6 +68,7 @@ const (
 	kRTrip  = "rtrip"  // cell C: Vector then ParseVector, compare
 	kZero   = "zero"   // cell C = zero value
 	kErrStr = "errstr" // call Error() on the error kept from the task's latest failing call
+	kExtra  = "extra"  // exported API the harness does not know: name S, arguments S2 (joined by \x1f), D=1: scribble over the results
 )
 
 type Op struct {
